@@ -7,6 +7,12 @@ import warnings
 warnings.simplefilter("ignore")
 
 CASE_TIMEOUT_S = 30          # no modelled operation on trees of the generated sizes takes more than milliseconds
+# Interpreter recursion limit while a case runs.  The library recurses per tree level in several places (iterators, glob, render,
+# export, copy) and the generated trees are up to 260 levels deep: with CPython's default limit of 1000 a behaviour-preserving rewrite
+# that merely uses four frames per level instead of two would end in RecursionError (false alarm 13).  How many frames a level costs is
+# not part of any property, so the cases run with a generous limit.  What *is* checked about depth - that the operations defined by
+# walking the parent links stay iterative - is the `deepchain` family (1500/3000 levels), which keeps the default limit.
+DEEP_LIMIT = 12000
 
 
 class CaseTimeout(BaseException):
@@ -29,9 +35,11 @@ def main():
     signal.signal(signal.SIGALRM, _on_alarm)
     import families  # noqa: imports anytree
     timeouts = 0
+    default_limit = sys.getrecursionlimit()
     with open(fin) as f, open(fout, "w") as g:
         for line in f:
             case = json.loads(line)
+            sys.setrecursionlimit(default_limit if case.get("fam") == "deepchain" else max(default_limit, DEEP_LIMIT))
             if timeouts >= 3:
                 # the implementation hangs again and again: the remaining cases are not worth minutes each
                 g.write(json.dumps({"exc": "Timeout", "where": "not run: three earlier cases did not return"}) + "\n")
